@@ -545,9 +545,11 @@ func raceSummary(stderr string) string {
 }
 
 // getChangesEscape is the matcher of known finding C16-getchanges-escape: the case reads the records returned by
-// GetChanges (op changesread) and the reported race is between ChangeCollector.AddChange updating such a record in
-// place and the harness reading it (top frames: util.(*ChangeCollector).AddChange vs. main.c16...). Any other race
-// - in particular any race between two methods of the trie - is not accepted.
+// GetChanges (op changesread) and one side of the reported race is the harness itself reading such a record, or
+// the hash of the node the record points to (frames: only Node.GetHash/GetHashBytes above a main.c16... frame),
+// while the other side is inside core/util (ChangeCollector.AddChange updating the record in place, or the
+// initialisation of the node that AddChange then publishes through the record). Any race whose both sides are
+// inside the trie's own methods is not accepted.
 func getChangesEscape(ops []string, summary string) bool {
 	has := false
 	for _, op := range ops {
@@ -560,16 +562,32 @@ func getChangesEscape(ops []string, summary string) bool {
 	if !has || len(parts) < 3 {
 		return false
 	}
-	top := func(p string) string {
+	frames := func(p string) []string {
 		if i := strings.Index(p, ": "); i >= 0 {
 			p = p[i+2:]
 		}
-		return strings.TrimSpace(strings.Split(p, " < ")[0])
+		fs := strings.Split(p, " < ")
+		for i := range fs {
+			fs[i] = strings.TrimSpace(fs[i])
+		}
+		return fs
 	}
-	a, b := top(parts[1]), top(parts[2])
-	isAdd := func(x string) bool { return x == "util.(*ChangeCollector).AddChange" }
-	isHarness := func(x string) bool { return strings.HasPrefix(x, "main.c16") }
-	return (isAdd(a) && isHarness(b)) || (isAdd(b) && isHarness(a))
+	harnessSide := func(fs []string) bool {
+		for _, f := range fs {
+			if strings.HasPrefix(f, "main.c16") {
+				return true
+			}
+			if !(strings.HasPrefix(f, "util.(*") && (strings.HasSuffix(f, ").GetHash") || strings.HasSuffix(f, ").GetHashBytes"))) {
+				return false
+			}
+		}
+		return false
+	}
+	utilSide := func(fs []string) bool {
+		return len(fs) > 0 && strings.HasPrefix(fs[0], "util.") && !harnessSide(fs)
+	}
+	a, b := frames(parts[1]), frames(parts[2])
+	return (harnessSide(a) && utilSide(b)) || (harnessSide(b) && utilSide(a))
 }
 
 func runC16(ops []string) (res CaseResult) {
